@@ -776,15 +776,19 @@ pub(crate) fn c20_group_by(max_len: u32, threads_form: bool) {
   let outer = fresh_probe();
   let flat = fresh_probe();
   let hot = e::choose_bool();
+  // a hot source is a parked `create` handle or a Subject (which asks its subscribers is_finished / is_closed)
+  let hk = if hot { e::choose(2) } else { 0 };
   if !threads_form {
     let mk = |src: Obs| src.group_by::<_, Val, Subject<'static, Val, Val>>(move |v: &Val| keyfn(kind, v));
     if hot {
-      let _u = mk(cat::hot_tagged(0)).actual_subscribe(GroupOuter::<Subject<'static, Val, Val>> { outer, _s: Default::default() });
-      let _f = mk(cat::hot_tagged(1)).flat_map(|g| g).actual_subscribe(flat);
-      let mut h = cat::handle(0);
-      feed_script(&mut h, &script);
-      let mut h = cat::handle(1);
-      feed_script(&mut h, &script);
+      let _u = mk(cat::hot_kind(0, hk)).actual_subscribe(GroupOuter::<Subject<'static, Val, Val>> { outer, _s: Default::default() });
+      let _f = mk(cat::hot_kind(1, hk)).flat_map(|g| g).actual_subscribe(flat);
+      for ev in script.events() {
+        cat::feed_hot(0, &ev);
+      }
+      for ev in script.events() {
+        cat::feed_hot(1, &ev);
+      }
     } else {
       let _u = mk(cat::cold(script.items.clone(), script.term.clone(), 0)).actual_subscribe(GroupOuter::<Subject<'static, Val, Val>> { outer, _s: Default::default() });
       let _f = mk(cat::cold(script.items.clone(), script.term.clone(), 0)).flat_map(|g| g).actual_subscribe(flat);
@@ -792,12 +796,14 @@ pub(crate) fn c20_group_by(max_len: u32, threads_form: bool) {
   } else {
     let mk = |src: ObsT| src.group_by::<_, Val, SubjectThreads<Val, Val>>(move |v: &Val| keyfn(kind, v));
     if hot {
-      let _u = mk(cat::hot_tagged_t(0)).actual_subscribe(GroupOuter::<SubjectThreads<Val, Val>> { outer, _s: Default::default() });
-      let _f = mk(cat::hot_tagged_t(1)).flat_map_threads(|g| g).actual_subscribe(flat);
-      let mut h = cat::handle_t(0);
-      feed_script_t(&mut h, &script);
-      let mut h = cat::handle_t(1);
-      feed_script_t(&mut h, &script);
+      let _u = mk(cat::hot_kind_t(0, hk)).actual_subscribe(GroupOuter::<SubjectThreads<Val, Val>> { outer, _s: Default::default() });
+      let _f = mk(cat::hot_kind_t(1, hk)).flat_map_threads(|g| g).actual_subscribe(flat);
+      for ev in script.events() {
+        cat::feed_hot_t(0, &ev);
+      }
+      for ev in script.events() {
+        cat::feed_hot_t(1, &ev);
+      }
     } else {
       let _u = mk(cat::cold_t(script.items.clone(), script.term.clone(), 0)).actual_subscribe(GroupOuter::<SubjectThreads<Val, Val>> { outer, _s: Default::default() });
       let _f = mk(cat::cold_t(script.items.clone(), script.term.clone(), 0)).flat_map_threads(|g| g).actual_subscribe(flat);
